@@ -524,9 +524,45 @@ pub fn contract_apply_tagenv<C: Ctx>(cx: &mut C, max_len: usize) {
         }
         _ => ASN1Type::Null,
     };
+    // "this holds at every nesting depth": optionally the first component is an anonymous SEQUENCE { x <tag> NULL } or a
+    // SEQUENCE OF <tag> CHOICE { y <tag> NULL }
+    let nesting = if max_len > 1 && n > 0 && kind < 3 { cx.choose(3) } else { 0 };
+    let (mut k_inner, mut k_elem) = (0usize, 0usize);
+    let ty = if nesting == 0 { ty } else {
+        let (t_inner, ki) = tag_with(cx);
+        k_inner = ki;
+        let inner_member = SequenceOrSetMember { name: String::new(), tag: t_inner.clone(), ty: ASN1Type::Null, optionality: Optionality::Required, is_recursive: false, constraints: Vec::new() };
+        let replacement = if nesting == 1 {
+            ASN1Type::Sequence(SequenceOrSet { components_of: Vec::new(), extensible: None, constraints: Vec::new(), members: vec![inner_member] })
+        } else {
+            let (t_elem, ke) = tag_with(cx);
+            k_elem = ke;
+            ASN1Type::SequenceOf(SequenceOrSetOf { constraints: Vec::new(), element_tag: t_elem, is_recursive: false,
+                element_type: Box::new(ASN1Type::Choice(Choice { extensible: None, constraints: Vec::new(), options: vec![ChoiceOption { name: String::new(), tag: t_inner, ty: ASN1Type::Null, constraints: Vec::new(), is_recursive: false }] })) })
+        };
+        match ty {
+            ASN1Type::Sequence(mut s) => { s.members[0].ty = replacement; ASN1Type::Sequence(s) }
+            ASN1Type::Set(mut s) => { s.members[0].ty = replacement; ASN1Type::Set(s) }
+            ASN1Type::Choice(mut c) => { c.options[0].ty = replacement; ASN1Type::Choice(c) }
+            other => other,
+        }
+    };
+    cx.describe(|| format!("module_default={env:?} kind={} components={n} first_component={}", ["SEQUENCE", "SET", "CHOICE", "primitive"][kind],
+        ["plain", "anonymous SEQUENCE { x [tag?] NULL }", "SEQUENCE OF [tag?] CHOICE { y [tag?] NULL }"][nesting]));
     let mut tld = ToplevelDefinition::Type(ToplevelTypeDefinition { comments: String::new(), tag: top_tag, name: String::new(), ty, parameterization: None, module_header: None });
     tld.apply_tagging_environment(&env);
     if let ToplevelDefinition::Type(t) = &tld {
+        if nesting > 0 {
+            let first = match &t.ty { ASN1Type::Sequence(s) | ASN1Type::Set(s) => s.members.first().map(|m| &m.ty), ASN1Type::Choice(c) => c.options.first().map(|o| &o.ty), _ => None };
+            match first {
+                Some(ASN1Type::Sequence(inner)) => { vob!(cx, "C03.apply_tagenv.component_of_anonymous_nested_type", inner.members.len() == 1 && tag_ok(&inner.members[0].tag, k_inner, env)); }
+                Some(ASN1Type::SequenceOf(of)) => {
+                    vob!(cx, "C03.apply_tagenv.sequence_of_element_tag", tag_ok(&of.element_tag, k_elem, env));
+                    vob!(cx, "C03.apply_tagenv.alternative_of_anonymous_element_type", matches!(&*of.element_type, ASN1Type::Choice(c) if c.options.len() == 1 && tag_ok(&c.options[0].tag, k_inner, env)));
+                }
+                _ => { vob!(cx, "C03.apply_tagenv.nested_type_kept", false); }
+            }
+        }
         vob!(cx, "C03.apply_tagenv.type_assignment_tag", tag_ok(&t.tag, top_k, env));
         match &t.ty {
             ASN1Type::Sequence(s) | ASN1Type::Set(s) => {
@@ -615,6 +651,7 @@ pub fn replay_bounded(unit: &str) -> Option<i32> {
         "b_generate_constructed" => run_grid(unit, contract_generate_constructed, limit),
         "b_c04_component_bounds" => run_grid(unit, contract_generate_component_bounds, limit),
         "b_generate_enumerated" => run_grid(unit, contract_generate_enumerated, limit),
+        "b_c03_element_tag" => run_grid(unit, contract_generate_element_tag, limit),
         "b_resolve_class_reference_frame" => run_grid(unit, contract_resolve_class_reference_frame, limit),
         "b_c02_component_types" => run_grid(unit, contract_generate_component_types, limit),
         "b_c06_int_type_serial" => run_grid(unit, contract_int_type_serial, limit),
@@ -1335,6 +1372,51 @@ pub fn contract_resolve_class_reference_frame<C: Ctx>(cx: &mut C) {
         vob!(cx, "C03.resolve_class_reference.component_tags_kept", out_tags == tags);
         vob!(cx, "C05.resolve_class_reference.extension_index_kept", out_ext == extensible);
         vob!(cx, "C02.resolve_class_reference.kind_kept", matches!((&out, kind), (ASN1Type::Sequence(_), 0) | (ASN1Type::Set(_), 1) | (ASN1Type::Choice(_), 2)));
+    }
+    #[cfg(kani)]
+    { let _ = cx; }
+}
+
+#[cfg(not(kani))]
+pub fn hook_octet_string_to_bit_string(bytes: &[u8]) -> Vec<bool> { crate::validator::verif_hook_utils::hook_octet_string_to_bit_string(bytes) }
+
+// ------------------------------------------------------------------------------------------------
+// C03 — "every tag written in the source is applied ... to the corresponding ... element": rendering of the tag on
+// a SEQUENCE OF / SET OF element (generator/rasn/builder.rs generate_sequence_or_set_of).  Bounded stand-in (native).
+// ------------------------------------------------------------------------------------------------
+pub fn contract_generate_element_tag<C: Ctx>(cx: &mut C) {
+    #[cfg(not(kani))]
+    {
+        use crate::intermediate::types::*;
+        use crate::generator::Backend;
+        use std::{cell::RefCell, rc::Rc};
+        let env = any_tagenv(cx);
+        let set_of = cx.any_bool();
+        let as_component = cx.any_bool();
+        let by_reference = cx.any_bool();
+        let tagged = cx.any_bool();
+        let elem = if by_reference { ASN1Type::ElsewhereDeclaredType(DeclarationElsewhere { parent: None, module: None, identifier: "Foo".into(), constraints: vec![] }) } else { ASN1Type::Boolean(Boolean { constraints: vec![] }) };
+        // the element tag as it looks after apply_tagging_environment in a module with default `env`
+        let element_tag = if tagged { Some(AsnTag { environment: env, tag_class: TagClass::Private, id: 9 }) } else { None };
+        let of = SequenceOrSetOf { constraints: vec![], element_type: Box::new(elem), element_tag, is_recursive: false };
+        let coll = if set_of { ASN1Type::SetOf(of) } else { ASN1Type::SequenceOf(of) };
+        let ty = if as_component {
+            ASN1Type::Sequence(SequenceOrSet { components_of: vec![], extensible: None, constraints: vec![], members: vec![SequenceOrSetMember { name: "a".into(), tag: None, ty: coll, optionality: Optionality::Required, is_recursive: false, constraints: vec![] }] })
+        } else { coll };
+        cx.describe(|| format!("module_default={env:?} T ::= {}{} OF {}{}{}", if as_component { "SEQUENCE { a " } else { "" }, if set_of { "SET" } else { "SEQUENCE" }, if tagged { "[PRIVATE 9] " } else { "" }, if by_reference { "Foo" } else { "BOOLEAN" }, if as_component { " }" } else { "" }));
+        let h = Rc::new(RefCell::new(ModuleHeader { name: "M".into(), module_identifier: None, encoding_reference_default: None, tagging_environment: env, extensibility_environment: ExtensibilityEnvironment::Explicit, imports: vec![], exports: None }));
+        let tld = ToplevelDefinition::Type(ToplevelTypeDefinition { comments: String::new(), tag: None, name: "T".into(), ty, parameterization: None, module_header: Some(h) });
+        let mut backend = crate::generator::rasn::Rasn::default();
+        let generated = match backend.generate_module(vec![tld]) { Ok(m) if m.warnings.is_empty() => m.generated.unwrap_or_default(), _ => { vob!(cx, "C03.generate.collection_is_generated", false); return; } };
+        let explicit_form = "tag (explicit (private , 9))";
+        let implicit_form = "tag (private , 9)";
+        if !tagged {
+            vob!(cx, "C03.generate.no_tag_invented_for_untagged_elements", !generated.contains("private"));
+        } else if env == TaggingEnvironment::Explicit {
+            vob!(cx, "C03.generate.element_tag_is_rendered_with_class_number_and_mode", generated.contains(explicit_form));
+        } else {
+            vob!(cx, "C03.generate.element_tag_is_rendered_with_class_number_and_mode", generated.contains(implicit_form) && !generated.contains(explicit_form));
+        }
     }
     #[cfg(kani)]
     { let _ = cx; }
